@@ -79,6 +79,14 @@ CHECKS = {
             "Trusted: transfer.py; names without parentheses (output label format). Tables are compared at the transferred vector, "
             "so non-unique optima cannot raise an alarm.",
             "DESIGN.md 5 C09"),
+    "C14": ("property-based testing (Hypothesis): metamorphic relation split vs unsplit with solution transfer + per-interval reference optima",
+            "Exploration: generated portfolios without coupling / with start=end storages are set up split (interval sizes 6h..W, "
+            "aligned or not, DST zones, wacc) and unsplit; value must be the sum of independently solved interval optima, "
+            "the split solution must be feasible and equally valued in the unsplit problem, equal / not larger than the "
+            "unsplit optimum, and balanced on the original grid.",
+            "Trusted: transfer.py, scipy-HiGHS for the interval problems, C01's balance oracle. Grid ends at an ambiguous wall "
+            "time are excluded (pandas cannot build the interval range).",
+            "DESIGN.md 5 C14"),
     "C19": ("property-based testing (Hypothesis) against an independent UTC-arithmetic reference model",
             "Exploration: thousands of generated grids / windows / interval lists / price inputs per run are compared "
             "with a reference written from the statement (own time arithmetic). No solver, so the comparison is exact; "
